@@ -27,7 +27,7 @@ Definition tcres_eqb (a b : tcres) : bool :=
 
 Fixpoint comparable (t : ty) : bool :=
   match t with
-  | TInt | TNat | TString | TBool | TUnit => true
+  | TInt | TNat | TString | TBytes | TBool | TUnit => true
   | TPair a b => comparable a && comparable b
   | TOption a => comparable a
   | TOr a b => comparable a && comparable b
@@ -76,7 +76,7 @@ Definition tc_simple (i : instr) (s : sty) : option sty :=
   | I_NIL t => Some (TList t :: s)
   | I_CONS => match s with a :: TList b :: r => if ty_eqb a b then Some (TList b :: r) else None | _ => None end
   | I_SIZE => match s with
-              | TString :: r | TList _ :: r => Some (TNat :: r)
+              | TString :: r | TBytes :: r | TList _ :: r => Some (TNat :: r)
               | _ => None
               end
   | I_ADD | I_MUL => match s with a :: b :: r => option_map (fun t => t :: r) (add_ty a b) | _ => None end
@@ -92,11 +92,32 @@ Definition tc_simple (i : instr) (s : sty) : option sty :=
                  end
   | I_EQ | I_NEQ | I_LT | I_GT | I_LE | I_GE =>
       match s with TInt :: r => Some (TBool :: r) | _ => None end
-  | I_AND | I_OR | I_XOR => match s with TBool :: TBool :: r => Some (TBool :: r) | _ => None end
-  | I_NOT => match s with TBool :: r => Some (TBool :: r) | _ => None end
+  | I_AND => match s with
+             | TBool :: TBool :: r => Some (TBool :: r)
+             | TNat :: TNat :: r | TInt :: TNat :: r => Some (TNat :: r)
+             | _ => None
+             end
+  | I_OR | I_XOR => match s with
+                    | TBool :: TBool :: r => Some (TBool :: r)
+                    | TNat :: TNat :: r => Some (TNat :: r)
+                    | _ => None
+                    end
+  | I_NOT => match s with
+             | TBool :: r => Some (TBool :: r)
+             | TNat :: r | TInt :: r => Some (TInt :: r)
+             | _ => None
+             end
+  | I_LSL | I_LSR => match s with TNat :: TNat :: r => Some (TNat :: r) | _ => None end
+  | I_SLICE => match s with
+               | TNat :: TNat :: TString :: r => Some (TOption TString :: r)
+               | TNat :: TNat :: TBytes :: r => Some (TOption TBytes :: r)
+               | _ => None
+               end
   | I_CONCAT => match s with
                 | TString :: TString :: r => Some (TString :: r)
+                | TBytes :: TBytes :: r => Some (TBytes :: r)
                 | TList TString :: r => Some (TString :: r)
+                | TList TBytes :: r => Some (TBytes :: r)
                 | _ => None
                 end
   | _ => None
